@@ -62,6 +62,21 @@ def check_graph(ctx):
     st = {U(s.targets[0]): U(s.value) for s in walk_shallow(init.node) if isinstance(s, ast.Assign) and len(s.targets) == 1}
     ok, why = stored_cliques(init)
     ok = ok and st.get('self.graph') == 'self._make_graph()'
+    # the argument may be any iterable (a generator, itertools.combinations(..)): it can be walked ONCE
+    param = init.params[2] if len(init.params) > 2 else 'cliques'
+    uses = 0
+    first_use = None
+    for s_ in init.body:
+        loads = [n for n in ast.walk(s_) if isinstance(n, ast.Name) and n.id == param and isinstance(n.ctx, ast.Load)]
+        uses += len(loads)
+        if loads and first_use is None:
+            first_use = s_
+        if isinstance(s_, ast.Assign) and any(isinstance(t, ast.Name) and t.id == param for t in s_.targets):
+            break          # rebound to the materialised list: later reads are of that list
+    ctx.ob('graph-from-cliques', init, first_use or init.node, uses <= 1,
+           'the `%s` argument is walked %d time(s) before it is materialised; a one-shot iterable (generator, itertools.combinations, map) is '
+           'exhausted by the first pass, so the tree would be built from no cliques at all' % (param, uses),
+           construct='single pass over the clique argument')
     ctx.ob('graph-from-cliques', init, init.node, ok, 'the tree is built from all the cliques it was given; a clique may only be left out when ONE '
            'retained clique contains it (all its attribute pairs are then still edges): %s' % why, construct='JunctionTree.__init__ stores')
 
